@@ -3,6 +3,7 @@ import XPathV.Model.Api
 import XPathV.Spec.Grammar
 import XPathV.Lemmas.Facts
 import XPathV.Lemmas.ParserGrammar
+import XPathV.Lemmas.ParserFull
 /-!
 # C10 — expressions parse with XPath 1.0 precedence, associativity and token rules
 -/
@@ -138,5 +139,39 @@ open XPathV.Lemmas.ParserGrammar in
 theorem C10_operator_token_unique {s : Scan} {o₁ o₂ : String} (h1 : o₁ ∈ Lemmas.ParserShape.allOps) (h2 : o₂ ∈ Lemmas.ParserShape.allOps)
     (m1 : tokMatches s o₁ = true) (m2 : tokMatches s o₂ = true) : o₁ = o₂ :=
   tokMatches_unique h1 h2 m1 m2
+
+open XPathV.Bridge XPathV.Spec.Full XPathV.Lemmas.ParserFull in
+/-- **C10 against the whole XPath 1.0 grammar (completeness).**  `Spec/FullGrammar.lean` states the
+complete expression grammar of the Recommendation (`D`, `Parses`; every non-terminal, not only the
+operator tiers) with an executable reference parser `refParseFull`, sound for it.  If the scanner's
+token stream of `text` is `toks`, the reference parser accepts it with the tree `b`, and `b` nests
+predicates / parentheses / arguments fewer than 200 deep (the parser's depth limit), then the model
+parser accepts `text` and returns `b` up to the four representation conventions of `normConv`. -/
+theorem C10_full_grammar_complete {ns : Option NsMap} {text : List Char} {toks : List TokV} {b : Ast}
+    (htoks : tokVsRel text toks) (href : refParseFull ns toks = some b) (hdepth : nesting b < 200) :
+    ∃ a, parse (fuelFor text) (defaultCfg ns) text = .ok a ∧ normConv a = normConv b :=
+  full_complete htoks href hdepth
+
+open XPathV.Bridge XPathV.Spec.Full XPathV.Lemmas.ParserFull in
+/-- the same, and the tree is one the grammar relation derives for the token stream -/
+theorem C10_full_grammar_tree {ns : Option NsMap} {text : List Char} {toks : List TokV} {b : Ast}
+    (htoks : tokVsRel text toks) (href : refParseFull ns toks = some b) (hdepth : nesting b < 200) :
+    ∃ a, parse (fuelFor text) (defaultCfg ns) text = .ok a ∧ normConv a = normConv b ∧ Parses ns toks b :=
+  full_complete_parses htoks href hdepth
+
+open XPathV.Bridge XPathV.Spec.Full XPathV.Lemmas.ParserFull in
+/-- the parser rejects an expression of the full grammar's reference parser only for its depth:
+the error is `.tooComplex` and the tree nests 200 deep or more -/
+theorem C10_full_grammar_reject_only_deep {ns : Option NsMap} {text : List Char} {toks : List TokV} {b : Ast}
+    {e : PErr} (htoks : tokVsRel text toks) (href : refParseFull ns toks = some b)
+    (herr : parse (fuelFor text) (defaultCfg ns) text = .error e) : e = .tooComplex ∧ 200 ≤ nesting b :=
+  full_reject_only_deep htoks href herr
+
+open XPathV.Bridge XPathV.Spec.Full XPathV.Lemmas.ParserFull in
+/-- the driver's token conversion `tokVs` (what the `full:*` column of the correspondence check is
+computed from) satisfies the relation the theorems above are stated with -/
+theorem C10_full_grammar_driver_tokens {text : List Char} {toks : List TokV} (h : tokVs text = some toks) :
+    tokVsRel text toks :=
+  tokVs_sound h
 
 end XPathV.Theorems.C10
